@@ -27,8 +27,9 @@ LEVEL = "exploration"
 RULE = (
     "Hypothesis-generated lists of message dicts (recursive JSON-native values: arbitrary Unicode text incl. astral/"
     "control/U+2028, ints in [-2^63, 2^64-1] with boundaries, finite floats incl. -0.0/subnormals/1e308, NaN/Inf, "
-    "nesting chains to depth 200, documented rich types Path/date/time/datetime/set/complex/tuple, custom json_default "
-    "extensions) x file flavour (real temp file 'ab', 'a' utf-8, unbuffered 'wb', BytesIO, StringIO, TextIOWrapper) "
+    "nesting chains to depth 200, texts of 4 KiB..300 KB around buffer-size boundaries, documented rich types Path/date/"
+    "time/datetime/set/complex/tuple, custom json_default extensions incl. one that overrides eliot's encoding of set/"
+    "complex/Path) x file flavour (real temp file 'ab', 'a' utf-8, unbuffered 'wb', BytesIO, StringIO, TextIOWrapper) "
     "x default/custom json_default. Non-trivial: the messages contain a non-ASCII or control character, a boundary "
     "number, nesting >= 3, or a rich type. Distinct = distinct canonical JSON of the case."
 )
@@ -61,6 +62,44 @@ def custom_default(o):
     if isinstance(o, V.Custom):
         return {"custom": o.payload}
     return eliot_json_default(o)
+
+
+def override_default(o):
+    """A caller's json_default that has its own encoding for types eliot's also knows."""
+    if isinstance(o, V.Custom):
+        return {"custom": o.payload}
+    if isinstance(o, set):
+        return {"$set": sorted(o, key=repr)}
+    if isinstance(o, complex):
+        return "complex(%r, %r)" % (o.real, o.imag)
+    import pathlib
+
+    if isinstance(o, pathlib.PurePath):
+        return {"$path": list(o.parts)}
+    return eliot_json_default(o)
+
+
+def override_normal(spec):
+    """Normal form under override_default (differs from V.normal for set/complex/path)."""
+    import pathlib
+
+    if isinstance(spec, list):
+        return [override_normal(x) for x in spec]
+    if isinstance(spec, dict):
+        if V.TAG not in spec:
+            return dict((k, override_normal(x)) for k, x in spec.items())
+        t = spec[V.TAG]
+        if t == "set":
+            return {"$set": sorted(spec["v"], key=repr)}
+        if t == "complex":
+            return "complex(%r, %r)" % (float(spec["v"][0]), float(spec["v"][1]))
+        if t == "path":
+            return {"$path": list(pathlib.Path(spec["v"]).parts)}
+        if t == "custom":
+            return {"custom": override_normal(spec["v"])}
+        if t == "tuple":
+            return [override_normal(x) for x in spec["v"]]
+    return V.normal(spec)
 
 
 def _open(kind, tmpdir):
@@ -125,6 +164,8 @@ def _check(case):
     kwargs = {}
     if default == "custom":
         kwargs["json_default"] = custom_default
+    elif default == "override":
+        kwargs["json_default"] = override_default
     with tempfile.TemporaryDirectory(prefix="c10-") as tmpdir:
         f, path = _open(kind, tmpdir)
         try:
@@ -177,8 +218,12 @@ def _check(case):
                 except ValueError as e:
                     raise Violation("invalid-json", "%r: %r" % (e, raw[:200]))
                 require(isinstance(obj, dict), "not-object", repr(obj)[:100])
-                want = V.normal(spec)
-                got = V.observed_normal(obj, spec)
+                if default == "override":
+                    want = override_normal(spec)
+                    got = obj
+                else:
+                    want = V.normal(spec)
+                    got = V.observed_normal(obj, spec)
                 require(
                     canon(got) == canon(want),
                     "content",
@@ -226,25 +271,29 @@ def classify(case, info):
         labels.append("nesting>=50")
     for r in feats["rich"]:
         labels.append("rich:" + r)
+    if feats.get("big"):
+        labels.append("message>=8KiB")
     nontrivial = bool(feats["nonascii"] or feats["control"] or feats["boundary"] or feats["depth"] >= 4 or feats["rich"])
     return nontrivial, labels
 
 
 def message_specs(custom):
-    return st.dictionaries(V.keys(), V.rich_tree(8, custom=custom), max_size=5)
+    return st.dictionaries(V.keys(), st.one_of(V.rich_tree(8, custom=custom), V.rich_tree(8, custom=custom), V.bigtexts()), max_size=5)
 
 
 def strategy():
+    # small draws first: a large message list must not starve the later draws
     return st.one_of(
         st.builds(
-            lambda msgs, f: {"msgs": msgs, "file": f, "default": "eliot"},
-            st.lists(message_specs(False), min_size=1, max_size=4),
+            lambda f, msgs: {"msgs": msgs, "file": f, "default": "eliot"},
             st.sampled_from(FILE_KINDS),
+            st.lists(message_specs(False), min_size=1, max_size=4),
         ),
         st.builds(
-            lambda msgs, f: {"msgs": msgs, "file": f, "default": "custom"},
-            st.lists(message_specs(True), min_size=1, max_size=4),
+            lambda f, d, msgs: {"msgs": msgs, "file": f, "default": d},
             st.sampled_from(FILE_KINDS),
+            st.sampled_from(["custom", "override"]),
+            st.lists(message_specs(True), min_size=1, max_size=4),
         ),
     )
 
